@@ -256,11 +256,12 @@ func fieldTagToFieldInfo(str string, name string) (*fieldInfo, error) {
 	}
 	if info != nil {
 		info.name = name
+		if info.count > 8 {
+			return nil, structuralError{name, "specified size too large in " + str}
+		}
 		if info.selector == "" {
 			if info.count < 1 {
 				return nil, structuralError{name, "field of unknown size in " + str}
-			} else if info.count > 8 {
-				return nil, structuralError{name, "specified size too large in " + str}
 			} else if info.minlen > info.maxlen {
 				return nil, structuralError{name, "specified length range inverted in " + str}
 			} else if info.val > 0 {
